@@ -28,6 +28,7 @@ RW(R, w) == CASE w = 1 -> [r \in 1..R |-> 1] [] w = 2 -> [r \in 1..R |-> <<1, 2,
               [] w = 3 -> [r \in 1..R |-> <<2, 1, 3, 1>>[r]]
 EstOf(i) == <<IF i \in {2,4} THEN "std" ELSE "mean", IF i \in {3,4} THEN "std" ELSE "mean", IF i \in {3} THEN "std" ELSE "mean">>
 FltOf(i) == CASE i = 1 -> <<-1, -1, -1>> [] i = 2 -> <<0, -1, -1>> [] i = 3 -> <<1, 1, -1>> [] i = 4 -> <<-1, 0, 1>>
+              [] i = 5 -> <<-1, -1, 2>> [] i = 6 -> <<0, 3, 3>>          \* the constraint flavours (CVaR / sort on the constraint)
 
 NanPOf(i, R, P) == [r \in 1..R |-> [p \in 1..P |->
                      CASE i = 0 -> 0
@@ -41,7 +42,9 @@ InitC02 == \E R \in RSet : \E P \in PSet : \E m \in MaskSet : \E d \in DesSet : 
              /\ (merged => e = 1)                  \* the stddev estimator rejects merged gradients at configuration time
              /\ (ident => merged)                  \* identical realizations only matter for merged estimation
              /\ (merged => shared \/ ident)        \* the statement covers merged estimation only in these cases
-             /\ sc = [V |-> V, mask |-> Mask(m), x |-> X, R |-> R, P |-> P, rw |-> RW(R, w), ow |-> <<3, 1>>,
+             \* (a zero objective weight where the filter keyed on that objective is not in use: its gradient row is still reported)
+             /\ sc = [V |-> V, mask |-> Mask(m), x |-> X, R |-> R, P |-> P, rw |-> RW(R, w),
+                      ow |-> IF fi \in {1, 2} /\ w = 2 THEN <<1, 0>> ELSE <<3, 1>>,
                       est |-> EstOf(e), flt |-> FltOf(fi), a |-> Slopes(R, salt, ident), b |-> Offs(R),
                       minsucc |-> 1, pms |-> pms, merged |-> merged, shared |-> shared, ident |-> ident,
                       nanF |-> [r \in 1..R |-> IF nf = 1 /\ r = 1 THEN 2 ELSE 0], nanP |-> NanPOf(np, R, P),
@@ -52,7 +55,7 @@ InitC02 == \E R \in RSet : \E P \in PSet : \E m \in MaskSet : \E d \in DesSet : 
 Des3(p, v) == CASE p = 1 -> <<1, 0, 0>>[v] [] p = 2 -> <<0, 0, 1>>[v] [] p = 3 -> <<1, 0, 1>>[v]
 InitC03 == \E R \in RSet : \E P \in PSet :
            \E fF \in SUBSET (1..R) : \E fP \in SUBSET ((1..R) \X (1..P)) : \E nc \in 1..3 :
-           \E ms \in 0..R : \E pms \in 1..P : \E fi \in {1, 2, 3} : \E e \in {1, 2} : \E mg \in BOOLEAN :
+           \E ms \in 0..R : \E pms \in 1..P : \E fi \in {1, 2, 3, 5} : \E e \in {1, 2} : \E mg \in BOOLEAN :
              /\ (fF = {} /\ fP = {} => nc = 1)
              /\ (mg => e = 1 /\ fi = 1)                       \* merged estimation: mean estimator, no filter
              /\ sc = [V |-> V, mask |-> Mask(2), x |-> X, R |-> R, P |-> P, rw |-> RW(R, 3), ow |-> <<3, 1>>,
